@@ -30,6 +30,7 @@ func VerifRun_C15() {
 	src := ""
 	line := 0
 	oneBlock := verifBool("oneBlock")
+	scope := []string{"", "public ", "protected ", "private "}[verifConcretize(verifRange("scope", 0, 3))] // documented visibility word, no effect on membership
 	fieldLine := make([]int, nc)
 	for i := 0; i < nc; i++ {
 		src += "---@class " + c15names[i]
@@ -43,7 +44,7 @@ func VerifRun_C15() {
 		}
 		src += "\n"
 		line++
-		src += "---@field f" + c15names[i] + " number\n"
+		src += "---@field " + scope + "f" + c15names[i] + " number\n"
 		fieldLine[i] = line
 		line++
 		if i == nc-1 || !oneBlock {
